@@ -87,7 +87,13 @@ def evaluate(
     stdout as a str.
   """
   # Set up the permission and context.
-  permission = permission or permissions.get_permission()
+  # NOTE: `CodePermission(0)` (nothing is allowed) is falsy, and an enclosing
+  # `pg.coding.permission` scope can only be narrowed by the argument.
+  scope_permission = permissions.get_permission()
+  if permission is None:
+    permission = scope_permission
+  elif scope_permission is not None:
+    permission = permission & scope_permission
   ctx = dict(get_context())
   if global_vars:
     ctx.update(global_vars)
